@@ -249,28 +249,35 @@ SRC_MODULES = {
     "Anonymongo.Src.RemoveElementsBeforeIncluding_eq": "Basic",
     "Anonymongo.Src.isFieldNameValue_eq": "Helpers", "Anonymongo.Src.isRedactableFieldPatternInArray_eq": "Helpers",
     "Anonymongo.Src.isInSearchStage_eq": "Helpers", "Anonymongo.Src.augmentOp_eq": "Helpers",
+    "Anonymongo.Src.redactQueryValues_eq": "Walk", "Anonymongo.Src.redactArrayValuesWithKey_eq": "Walk", "Anonymongo.Src.redactArrayValues_eq": "Walk",
+    "Anonymongo.Src.redactQueryValues_eq_gen": "Walk", "Anonymongo.Src.QA_all": "Walk", "Anonymongo.Src.Q_step": "Walk", "Anonymongo.Src.A_step": "Walk",
 }
+_WALK = ["Anonymongo.Src.redactQueryValues_eq", "Anonymongo.Src.redactArrayValuesWithKey_eq", "Anonymongo.Src.redactArrayValues_eq",
+         "Anonymongo.Src.redactQueryValues_eq_gen", "Anonymongo.Src.QA_all", "Anonymongo.Src.Q_step", "Anonymongo.Src.A_step"]
 _LEAF = ["Anonymongo.Src.redactScalarValue_eq", "Anonymongo.Src.redactScalarValue_eq_gen", "Anonymongo.Src.Gen_emailPH", "Anonymongo.Src.getOp_eq",
          "Anonymongo.Src.traverseMapPath_eq", "Anonymongo.Src.redactString_eq", "Anonymongo.Src.reMatchesAnyKeyInPath_eq", "Anonymongo.Src.IsEmail_eq"]
 _PATH = ["Anonymongo.Src.getOp_eq", "Anonymongo.Src.traverseMapPath_eq", "Anonymongo.Src.traverseMapPath_step", "Anonymongo.Src.traverseFuel_enough",
          "Anonymongo.Src.withinSearchUserDocument_eq", "Anonymongo.Src.RemoveElementAfter_eq", "Anonymongo.Src.RemoveElementsBeforeIncluding_eq"]
 _HELP = ["Anonymongo.Src.isFieldNameValue_eq", "Anonymongo.Src.isRedactableFieldPatternInArray_eq", "Anonymongo.Src.isInSearchStage_eq", "Anonymongo.Src.augmentOp_eq"]
 SRC_THEOREMS = {
-    "C01": _LEAF + ["Anonymongo.Src.isInSearchStage_eq"],
-    "C02": _LEAF,
-    "C03": ["Anonymongo.Src.redactScalarValue_eq"],
-    "C05": _LEAF,
-    "C07": _LEAF + _PATH + _HELP,
-    "C10": ["Anonymongo.Src.redactString_eq", "Anonymongo.Src.redactScalarValue_eq"],
+    "C01": _LEAF + ["Anonymongo.Src.isInSearchStage_eq"] + _WALK,
+    "C02": _LEAF + _WALK,
+    "C03": ["Anonymongo.Src.redactScalarValue_eq"] + _WALK,
+    "C05": _LEAF + _WALK,
+    "C07": _LEAF + _PATH + _HELP + _WALK,
+    "C10": ["Anonymongo.Src.redactString_eq", "Anonymongo.Src.redactScalarValue_eq"] + _WALK,
     "C12": ["Anonymongo.Src.getOp_eq", "Anonymongo.Src.traverseMapPath_eq"],
-    "C14": _LEAF + ["Anonymongo.Src.isRedactableFieldPatternInArray_eq", "Anonymongo.Src.augmentOp_eq"],
-    "C15": ["Anonymongo.Src.isFieldNameValue_eq"],
-    "C19": ["Anonymongo.Src.redactScalarValue_eq"],
+    "C14": _LEAF + ["Anonymongo.Src.isRedactableFieldPatternInArray_eq", "Anonymongo.Src.augmentOp_eq"] + _WALK,
+    "C15": ["Anonymongo.Src.isFieldNameValue_eq"] + _WALK,
+    "C19": ["Anonymongo.Src.redactScalarValue_eq"] + _WALK,
 }
 SRC_NOTE = ("; SOURCE-LEVEL (tools/gotr, Generated/Src.lean, Props/Src/*): the leaf and lookup functions are TRANSLATED from the Go source on every run "
             "into Lean (do-notation over Option, none = panic) and proved to return - never panic, always terminate - exactly what the model's "
             "redactScalar / redactString / reMatchesAny / isEmail / getOp / traverse / augmentOp / selArr compute, for every key path (non-empty), value, "
-            "table and flag setting; the theorems above about those model functions are therefore theorems about the current source text")
+            "table and flag setting; the theorems above about those model functions are therefore theorems about the current source text; "
+            "the QUERY WALKER and the ARRAY WALKER too (Props/Src/Walk: redactQueryValues_eq, redactArrayValuesWithKey_eq - the translated mutual recursion "
+            "of redactQueryValues / redactArrayValuesWithKey returns the model's Q / A for every document, at every nesting depth, given fuel beyond "
+            "key-path length + twice the depth); the stage walker redactPipelineStage remains hand-modelled and corresponded")
 for _p, _ts in SRC_THEOREMS.items():
     _s = PROPS[_p]
     _s["theorems"] = _s["theorems"] + [t for t in dict.fromkeys(_ts) if t not in _s["theorems"]]
